@@ -3,7 +3,7 @@
 use crate::prng::Prng;
 use crate::refint;
 use crate::simrng::Plan;
-use crate::spec::{Op, OpKind, RunSpec};
+use crate::spec::{Op, OpKind, RunSpec, Task};
 use crate::types::{Ctor, FillVia, TyObj};
 use std::cmp::Ordering;
 
@@ -398,13 +398,18 @@ pub fn make_run(seed: u64, run: u64, menu: &[Box<dyn TyObj>]) -> RunSpec {
     let s = crate::prng::mix(seed, run);
     let mut p = Prng::new(s);
     let mut ti = pick_type(&mut p, menu);
-    let mode = match p.below(40) {
-        0..=13 => 1u8, // cluster run
-        14..=21 => 2,  // fault-free twin of the mixed workload
-        22 => 3,       // fibre walk: exact fibre sizes at any width
-        23 => 4,       // span probe: exact block sizes of chosen values when fibres are huge
-        _ => 0,        // mixed workload with faults
+    let mode = match p.below(80) {
+        0..=27 => 1u8,  // cluster run
+        28..=43 => 2,   // fault-free twin of the mixed workload
+        44 | 45 => 3,   // fibre walk: exact fibre sizes at any width
+        46 | 47 => 4,   // span probe: exact block sizes of chosen values when fibres are huge
+        48 => 5,        // census: every value of a small range turns up, none absurdly often
+        49 | 50 => 6,   // interleaved tasks: results must not depend on the schedule
+        _ => 0,         // mixed workload with faults
     };
+    if mode == 6 {
+        return tasks_run(seed, run, &mut p, menu);
+    }
     // Span probes are the only two-sided oracle for multi-digit types with 64-bit digits (no sweep can reach them and
     // the pinned suite builds 64-bit digits with N = 1 only), so half of the span-probe runs go to those types.
     if mode == 4 && p.chance(1, 2) {
@@ -443,7 +448,9 @@ pub fn make_run(seed: u64, run: u64, menu: &[Box<dyn TyObj>]) -> RunSpec {
     // error code carried by injected RNG errors: a custom code, OS-style codes (EINTR, EIO, EAGAIN), an internal one
     let err_code = [0xC000_0007u32, 0xC000_0007, 4, 5, 11, 0x8000_0001, 0xC000_0000, 1][p.below(8) as usize];
     let mut ops = Vec::new();
-    if mode == 4 {
+    if mode == 5 {
+        ops.push(census_op(&mut p, &sw, w, db, signed));
+    } else if mode == 4 {
         ops.push(span_op(&mut p, &sw, w, db, signed));
         if p.chance(1, 2) {
             ops.push(span_op(&mut p, &sw, w, db, signed));
@@ -464,7 +471,7 @@ pub fn make_run(seed: u64, run: u64, menu: &[Box<dyn TyObj>]) -> RunSpec {
             ops.push(mixed_op(&mut p, &sw, w, db, signed, &shape_w));
         }
     }
-    RunSpec { seed, run, ty: ty.name().to_string(), infallible, fresh_seed, err_code, ops, mode }
+    RunSpec { seed, run, ty: ty.name().to_string(), infallible, fresh_seed, err_code, ops, mode, tasks: Vec::new(), schedule: Vec::new() }
 }
 
 fn mixed_op(p: &mut Prng, sw: &Swarm, w: usize, db: usize, signed: bool, shape_w: &[u32]) -> Op {
@@ -572,6 +579,17 @@ fn cluster_op(p: &mut Prng, sw: &Swarm, w: usize, db: usize, signed: bool, shape
             f[b / 8] ^= 1 << (b % 8);
             words.push(f);
         }
+        // words one range size apart (base +- k*r, wrapping): the preimages of one value under a modulo or low-bits
+        // reduction, as the neighbours above are under a multiply-shift reduction
+        if let Some(r) = &r {
+            let (mut up, mut dn) = (base.clone(), base.clone());
+            for _ in 0..(q + 1).min(5) {
+                up = refint::add(&up, r);
+                dn = refint::sub(&dn, r);
+                words.push(up.clone());
+                words.push(dn.clone());
+            }
+        }
     }
     for k in 0..7u64 {
         words.push(refint::from_u64(k, w));
@@ -673,4 +691,146 @@ fn span_op(p: &mut Prng, sw: &Swarm, w: usize, db: usize, signed: bool) -> Op {
     let via = if p.chance(1, 2) { 2 } else { p.below(2) as u8 }; // the Uniform constructor is the only entry point that divides
     let dynamic = p.below(4) < sw.dyn_rate;
     Op { kind: OpKind::SpanProbe { low, high, inclusive, via, targets }, dynamic, calls: Vec::new(), shape }
+}
+
+/// a small range (2..=256 values) sampled many times on fresh words
+fn census_op(p: &mut Prng, sw: &Swarm, w: usize, db: usize, signed: bool) -> Op {
+    let r = match p.below(10) {
+        0..=3 => 2 + p.below(7),
+        4..=6 => 2 + p.below(31),
+        7 | 8 => 2 + p.below(127),
+        _ => [2u64, 3, 4, 5, 7, 8, 10, 16, 17, 100, 128, 255, 256][p.below(13) as usize],
+    };
+    let r = if w == 1 { r.min(200) } else { r };
+    let (low, high_incl) = place(p, w, db, signed, &Some(refint::from_u64(r, w)));
+    let (low, high, inclusive) = api_bounds(p, w, signed, low, high_incl);
+    let samples = (64 * r * (1 + p.below(2))) as u32;
+    let via = p.below(3) as u8;
+    let dynamic = p.below(4) < sw.dyn_rate;
+    Op { kind: OpKind::Census { low, high, inclusive, via, samples }, dynamic, calls: Vec::new(), shape: 13 }
+}
+
+/// interleaved-tasks run: 2-3 logical callers whose ranges are related (same low digits, neighbouring sizes, the same
+/// bounds in another type) so that state keyed on part of the arguments would collide, plus a seeded schedule
+fn tasks_run(seed: u64, run: u64, p: &mut Prng, menu: &[Box<dyn TyObj>]) -> RunSpec {
+    let small: Vec<usize> = (0..menu.len()).filter(|&i| menu[i].bytes() <= 64).collect();
+    let t0 = small[p.below(small.len() as u64) as usize];
+    let n_tasks = if p.chance(1, 3) { 3 } else { 2 };
+    let faults_on = p.chance(1, 3);
+    let sw = Swarm {
+        fault_err: faults_on && p.chance(1, 2),
+        fault_partial: faults_on && p.chance(1, 2),
+        fault_panic: faults_on && p.chance(1, 2),
+        fault_stall: p.chance(1, 2),
+        fault_rate: [8, 20][p.below(2) as usize],
+        w_fresh: [1, 4, 8][p.below(3) as usize],
+        w_extreme: [0, 1, 4][p.below(3) as usize],
+        dyn_rate: [0, 0, 1, 4][p.below(4) as usize],
+    };
+    let mut shape_w = [6u32, 5, 5, 6, 5, 6, 14, 14, 3, 5, 6, 6, 8, 5, 7];
+    for x in shape_w.iter_mut() {
+        if p.chance(1, 4) {
+            *x = 0;
+        }
+    }
+    shape_w[6] += 1;
+    // the base range, in the first task's type
+    let (bw, bdb, bsigned) = (menu[t0].bytes(), menu[t0].digit_bytes(), menu[t0].signed());
+    let (br, _) = gen_rsize(p, bw, bdb, &shape_w);
+    let (blow, bhigh) = place(p, bw, bdb, bsigned, &br);
+    let mut tasks = Vec::new();
+    for ti in 0..n_tasks {
+        let tyi = if ti == 0 || p.chance(1, 2) {
+            t0
+        } else {
+            match p.below(3) {
+                // the signed / unsigned twin, a type with the same digit size, any small type
+                0 => small.iter().copied().find(|&i| menu[i].bytes() == bw && menu[i].digit_bytes() == bdb && menu[i].signed() != bsigned).unwrap_or(t0),
+                1 => {
+                    let c: Vec<usize> = small.iter().copied().filter(|&i| menu[i].digit_bytes() == bdb).collect();
+                    c[p.below(c.len() as u64) as usize]
+                }
+                _ => small[p.below(small.len() as u64) as usize],
+            }
+        };
+        let ty = &menu[tyi];
+        let (w, db, signed) = (ty.bytes(), ty.digit_bytes(), ty.signed());
+        let mut ops = Vec::new();
+        for _ in 0..1 + p.below(3) {
+            let dynamic = p.below(4) < sw.dyn_rate;
+            let kind_sel = p.weighted(&[8, 4, 4, 2, 2]);
+            if kind_sel == 3 {
+                ops.push(Op { kind: OpKind::Gen, dynamic, calls: (0..1 + p.below(3)).map(|_| fill_call_plan(p, &sw, w, db)).collect(), shape: 0 });
+                continue;
+            }
+            if kind_sel == 4 {
+                let len = p.below(6) as usize;
+                let via = [FillVia::TryFillSlice, FillVia::FillTrait, FillVia::RngTryFill][p.below(3) as usize];
+                ops.push(Op { kind: OpKind::Fill { len, init: 0x5A, front: p.below(3) as usize, via }, dynamic, calls: (0..1 + p.below(2)).map(|_| fill_call_plan(p, &sw, w * len.max(1), db)).collect(), shape: 0 });
+                continue;
+            }
+            // bounds: related to the base range (so that state keyed on part of the arguments collides), or fresh
+            let (low, high_incl, shape) = if p.chance(3, 5) {
+                let mut lo = refint::resize(&blow, w, bsigned);
+                let mut hi = refint::resize(&bhigh, w, bsigned);
+                match p.below(6) {
+                    0 => {}
+                    1 => {
+                        // same low bytes, different upper bytes
+                        let k = w / 2 + p.below((w - w / 2) as u64) as usize;
+                        hi[k] ^= 1 << p.below(8);
+                    }
+                    2 => {
+                        let k = p.below(w as u64) as usize;
+                        lo[k] ^= 1 << p.below(8);
+                    }
+                    3 => hi = refint::add_small(&hi, if p.chance(1, 2) { 1 } else { -1 }),
+                    4 => {
+                        // the same size somewhere else
+                        let d = p.bytes(w);
+                        lo = refint::add(&lo, &d);
+                        hi = refint::add(&hi, &d);
+                    }
+                    _ => {
+                        // size shifted up by whole digits
+                        let sz = refint::sub(&hi, &lo);
+                        let k = (1 + p.below((w / db) as u64) as usize) * db;
+                        let mut sh = vec![0u8; w];
+                        for i in k.min(w)..w {
+                            sh[i] = sz[i - k.min(w)];
+                        }
+                        hi = refint::add(&lo, &sh);
+                    }
+                }
+                if refint::cmp(signed, &lo, &hi) == Ordering::Greater {
+                    std::mem::swap(&mut lo, &mut hi);
+                }
+                (lo, hi, 14u8)
+            } else {
+                let (r, shape) = gen_rsize(p, w, db, &shape_w);
+                let (lo, hi) = place(p, w, db, signed, &r);
+                (lo, hi, shape)
+            };
+            let (low, high, inclusive) = api_bounds(p, w, signed, low, high_incl);
+            let ncalls = 1 + p.below(4);
+            let calls: Vec<Vec<Plan>> = (0..ncalls).map(|_| range_call_plan(p, &sw, w, db)).collect();
+            let kind = match kind_sel {
+                0 => OpKind::Uniform { low, high, inclusive, ctor: [Ctor::Val, Ctor::Ref, Ctor::FromRange, Ctor::Sampler][p.below(4) as usize] },
+                1 => OpKind::Single { low, high, inclusive, by_ref: p.chance(1, 2) },
+                _ => OpKind::GenRange { low, high, inclusive },
+            };
+            ops.push(Op { kind, dynamic, calls, shape });
+        }
+        tasks.push(Task { ty: ty.name().to_string(), ops });
+    }
+    let sched_len = match p.below(4) {
+        0 => p.below(4),
+        1 => p.below(16),
+        _ => p.below(64),
+    } as usize;
+    let schedule: Vec<u8> = (0..sched_len).map(|_| p.below(6) as u8).collect();
+    let infallible = p.chance(1, 4);
+    let fresh_seed = p.next();
+    let err_code = [0xC000_0007u32, 4, 5, 11][p.below(4) as usize];
+    RunSpec { seed, run, ty: tasks[0].ty.clone(), infallible, fresh_seed, err_code, ops: Vec::new(), mode: 6, tasks, schedule }
 }
